@@ -19,7 +19,11 @@ def run_script(desc, mode="proof", sizes=None, pinned=None, native=None, repo=No
         I.invariants.clear()
         S.inputs.clear()
         S.input_order.clear()
-        desc["fn"](S, I, desc["variant"])
+        try:
+            desc["fn"](S, I, desc["variant"])
+        except PyRaise as e:
+            # an exception escaping the script itself (typically on a path that is infeasible but was not pruned)
+            S.structural_failure("script-level " + e.exc_type + ": " + e.msg[:60])
 
     try:
         explore(path, S)
